@@ -67,10 +67,11 @@ theorem decode_no_panic (dec : AtomDec) (env : KeyEnv) (ctx : Ctx) (toks : List 
   subst hp
   exact decodeLoop_no_panic (decodeFuel toks) _ (inv_init toks.reverse) hr
 
-/-- the same for the whole `decode_consensus` pipeline on bytes -/
-theorem decodeScript_no_panic (dec : AtomDec) (env : KeyEnv) (ctx : Ctx) (bs : Bytes) :
-    decodeScript dec env ctx bs ≠ .error .panic := by
-  unfold decodeScript
+/-- the same for the whole `decode_with_validation_params` pipeline on bytes (`Ctx::CONSENSUS`
+or `MAX` parameters) -/
+theorem decodeScriptP_no_panic (p : DecParams) (dec : AtomDec) (env : KeyEnv) (ctx : Ctx) (bs : Bytes) :
+    decodeScriptP p dec env ctx bs ≠ .error .panic := by
+  unfold decodeScriptP
   split
   · simp
   · split
@@ -81,6 +82,10 @@ theorem decodeScript_no_panic (dec : AtomDec) (env : KeyEnv) (ctx : Ctx) (bs : B
       exact decode_no_panic dec env ctx _ he
     · repeat' split
       all_goals simp
+
+theorem decodeScript_no_panic (dec : AtomDec) (env : KeyEnv) (ctx : Ctx) (bs : Bytes) :
+    decodeScript dec env ctx bs ≠ .error .panic :=
+  decodeScriptP_no_panic .consensus dec env ctx bs
 
 example : decodeScript Toy.dec Toy.env .tap [0x92, 0x92, 0x68] ≠ .error .panic :=
   decodeScript_no_panic _ _ _ _
@@ -187,20 +192,79 @@ theorem norm_desugar_tokens (env : KeyEnv) (ctx : Ctx) (rp : Key → Nat)
     tokens env ctx (norm (desugar env rp ms)) = tokens env ctx ms := by
   rw [tokens_norm, tokens_desugar env ctx rp h]
 
-/-- T2a ∘ T3 on bytes: `decode_consensus(encode(ms)) = ms` whenever the top-level checks of
-`decode_with_validation_params` pass for `ms` -/
-theorem roundtrip_bytes (dec : AtomDec) (env : KeyEnv) (ctx : Ctx) (ms : Ms)
+/-- Taproot over FULL keys: the encoder serialises every key through `to_x_only_pubkey`, i.e.
+the script of `ms` under the renamed key environment is the script of the renamed miniscript
+(`reKey f ms` = the x-only translation), which is what the decoder then returns -/
+theorem encode_full_keys_tap (env : KeyEnv) (ctx : Ctx) (f : Key → Key) (ms : Ms) :
+    encode env ctx (reKey f ms) = encode (envRe env f) ctx ms :=
+  encode_reKey env ctx f ms
+
+example : encode Toy.env .tap (reKey (· + 200) Toy.m1) = encode (envRe Toy.env (· + 200)) .tap Toy.m1 :=
+  encode_full_keys_tap _ _ _ _
+
+/-- T2a ∘ T3 on bytes: `decode_with_validation_params(encode(ms), params) = ms` whenever the
+top-level checks pass for `ms` -/
+theorem roundtrip_bytesP (p : DecParams) (dec : AtomDec) (env : KeyEnv) (ctx : Ctx) (ms : Ms)
     (hatoms : AtomsOk env ms) (hform : form .A ms = true) (hok : DecOk dec env ctx ms)
     (hglobal : checkGlobal env ctx ms = true) (hty : (typeOf ms).isSome = true)
-    (hval : validateConsensus env ctx ms = true) :
-    decodeScript dec env ctx (serialize (encode env ctx ms)) = .ok ms := by
-  unfold decodeScript
+    (hval : validateWith p env ctx ms = true) :
+    decodeScriptP p dec env ctx (serialize (encode env ctx ms)) = .ok ms := by
+  unfold decodeScriptP
   rw [lex_serialize env ctx ms hatoms]
   simp only [decode_encode dec env ctx ms hform hok]
   simp [hglobal, hval]
   cases h : typeOf ms with
   | none => simp [h] at hty
   | some t => simp
+
+/-- `decode_consensus(encode(ms)) = ms` -/
+theorem roundtrip_bytes (dec : AtomDec) (env : KeyEnv) (ctx : Ctx) (ms : Ms)
+    (hatoms : AtomsOk env ms) (hform : form .A ms = true) (hok : DecOk dec env ctx ms)
+    (hglobal : checkGlobal env ctx ms = true) (hty : (typeOf ms).isSome = true)
+    (hval : validateConsensus env ctx ms = true) :
+    decodeScript dec env ctx (serialize (encode env ctx ms)) = .ok ms :=
+  roundtrip_bytesP .consensus dec env ctx ms hatoms hform hok hglobal hty hval
+
+/-- the permissive entry point (`ValidationParams::MAX`) accepts whatever the consensus entry
+point accepts, with the same result: `CONSENSUS` validation only ever rejects more -/
+theorem consensus_sub_max (dec : AtomDec) (env : KeyEnv) (ctx : Ctx) (bs : Bytes) (ms : Ms)
+    (h : decodeScript dec env ctx bs = .ok ms) : decodeScriptP .max dec env ctx bs = .ok ms := by
+  unfold decodeScript decodeScriptP at h
+  unfold decodeScriptP
+  cases hl : lex bs with
+  | error e => simp [hl] at h
+  | ok toks =>
+    simp only [hl] at h ⊢
+    cases hd : decodeToks dec env ctx toks with
+    | error e => simp [hd] at h
+    | ok r =>
+      obtain ⟨top, rest⟩ := r
+      simp only [hd] at h ⊢
+      by_cases h1 : (!checkGlobal env ctx top) = true
+      · simp [h1] at h
+      · by_cases h2 : (typeOf top).isNone = true
+        · simp [h1, h2] at h
+        · by_cases h3 : (!rest.isEmpty) = true
+          · simp [h1, h2, h3] at h
+          · by_cases h4 : (!validateWith .consensus env ctx top) = true
+            · simp [h1, h2, h3, h4] at h
+            · simp only [h1, h2, h3, h4, if_false, Bool.false_eq_true, Except.ok.injEq] at h
+              subst h
+              have hh : (extOf env ctx top).treeHeight ≤ 402 := by
+                have hv : validateConsensus env ctx top = true := by simpa [validateWith] using h4
+                unfold validateConsensus at hv
+                by_cases hgt : (extOf env ctx top).treeHeight > 402
+                · simp [hgt] at hv
+                · omega
+              simp [h1, h2, h3, validateWith, hh]
+
+example : decodeScriptP .max Toy.dec Toy.env .segwitv0 (serialize (encode Toy.env .segwitv0 Toy.m1)) = .ok Toy.m1 :=
+  consensus_sub_max _ _ _ _ _ (by
+    refine roundtrip_bytes _ _ _ _ ?_ (by decide) ?_ (by decide +kernel) (by decide +kernel) (by decide +kernel)
+    · simp only [Toy.m1, Toy.vpk, Toy.pk, AtomsOk, keyLenOk, Toy.env, hashLen]; simp
+    · simp only [Toy.m1, Toy.vpk, Toy.pk, DecOk]
+      repeat' apply And.intro
+      all_goals first | rfl | decide)
 
 example : decodeScript Toy.dec Toy.env .segwitv0 (serialize (encode Toy.env .segwitv0 Toy.m1)) = .ok Toy.m1 := by
   refine roundtrip_bytes _ _ _ _ ?_ (by decide) ?_ (by decide +kernel) (by decide +kernel) (by decide +kernel)
